@@ -61,12 +61,16 @@ pub struct WriterRec {
     pub md5_check: bool,
 }
 
-#[derive(Debug, Default, Clone)]
+#[derive(Debug, Default, Clone, PartialEq, serde::Serialize, serde::Deserialize)]
 pub struct WriterFaults {
     pub p_open_fail: f64,
     pub p_write_fail: f64,
     pub p_abort: f64,
     pub p_already: f64,
+    /// deterministic: the n-th write call (0-based, counted over all writers) fails
+    pub fail_write_at: Option<u64>,
+    /// deterministic: the n-th open call fails
+    pub fail_open_at: Option<u64>,
 }
 
 #[derive(Debug)]
@@ -82,6 +86,8 @@ pub struct FdtRec {
 
 #[derive(Debug, Default)]
 pub struct MonitorState {
+    pub write_calls: u64,
+    pub open_calls: u64,
     pub writers: Vec<WriterRec>,
     pub fdts: Vec<FdtRec>,
     pub cache_updates: Vec<(u64, u64, u128, ObjectMetadata)>,
@@ -153,6 +159,8 @@ struct MonWriter {
     md5_check: bool,
     p_open_fail: f64,
     p_write_fail: f64,
+    fail_write_at: Option<u64>,
+    fail_open_at: Option<u64>,
     label: String,
     keep_data: bool,
 }
@@ -233,6 +241,8 @@ impl ObjectWriterBuilder for Monitor {
             md5_check: self.md5_check,
             p_open_fail: self.faults.p_open_fail,
             p_write_fail: self.faults.p_write_fail,
+            fail_write_at: self.faults.fail_write_at,
+            fail_open_at: self.faults.fail_open_at,
             label: self.label.clone(),
             keep_data: self.keep_data,
         }))
@@ -353,6 +363,16 @@ impl MonWriter {
 
 impl ObjectWriter for MonWriter {
     fn open(&self, _now: SystemTime) -> flute::error::Result<()> {
+        let n_open = {
+            let mut st = self.state.borrow_mut();
+            st.open_calls += 1;
+            st.open_calls - 1
+        };
+        if self.fail_open_at == Some(n_open) {
+            self.ctx.borrow_mut().count_fault("writer-open-fail");
+            self.ev(WKind::OpenFailed, 0, 0);
+            return Err(flute::error::FluteError::new("injected open failure"));
+        }
         let fail = self.p_open_fail > 0.0
             && self
                 .ctx
@@ -373,6 +393,16 @@ impl ObjectWriter for MonWriter {
     }
 
     fn write(&self, sbn: u32, data: &[u8], _now: SystemTime) -> flute::error::Result<()> {
+        let n_write = {
+            let mut st = self.state.borrow_mut();
+            st.write_calls += 1;
+            st.write_calls - 1
+        };
+        if self.fail_write_at == Some(n_write) {
+            self.ctx.borrow_mut().count_fault("writer-write-fail");
+            self.ev(WKind::WriteFailed, data.len(), sbn);
+            return Err(flute::error::FluteError::new("injected write failure"));
+        }
         let fail = self.p_write_fail > 0.0
             && self.ctx.borrow_mut().fault(
                 &format!("writer-write-fail/{}", self.label),
